@@ -2,11 +2,33 @@
    (Oracles/CoreC01.v) ++ the correspondence of the WHOLE operational model (Core/ModelAll.v: frozen fragments, gang
    fragment, reservation / preemption fragment) restricted to the ledgers the property is about. *)
 From Coq Require Import List ZArith NArith Bool.
-From YK Require Import Base.Res Core.Obs Oracles.CoreC01 Oracles.CoreModelAllCheck.
+From YK Require Import Base.Res Core.Obs Core.Ledger2 Oracles.CoreC01 Oracles.CoreModelAllCheck.
 Import ListNotations.
 Open Scope N_scope.
 
-Definition c01_all_check (cs : list ohistory) : list (N * N) := c01_oracle_all cs ++ in_kinds [191] (modelall_check_all cs).
-Definition c02_all_check (cs : list ohistory) : list (N * N) := c02_oracle_all cs ++ in_kinds [291] (modelall_check_all cs).
+(* The operational model does not describe states corrupted by a recorded accounting defect (e.g. its frozen q_dec
+   guards with FitInActual where the code uses FitIn: they agree only while the ledgers are sound): a model
+   disagreement at or after the first accounting trigger of its history (Core/Ledger.v known_trigger, Core/Ledger2.v)
+   is not judged - the oracle reports those histories under the trigger's known kind. *)
+Fixpoint first_trigger (pre : ostate) (i : N) (l : list ostep) : option N :=
+  match l with
+  | [] => None
+  | st :: t => match known_trigger_ext pre st with
+               | Some _ => Some i
+               | None => first_trigger (st_obs st) (i + 1) t
+               end
+  end.
+Definition trigger_steps (cs : list ohistory) : list (option N) :=
+  map (fun h => first_trigger (h_init h) 0 (h_steps h)) cs.
+Definition sound_part (cs : list ohistory) (l : list (N * N)) : list (N * N) :=
+  let ts := trigger_steps cs in
+  filter (fun p => (100000000 <? snd p) ||
+                   match nth (N.to_nat (fst p / 1000)) ts None with
+                   | Some t => (fst p mod 1000) <? t
+                   | None => true
+                   end) l.
+
+Definition c01_all_check (cs : list ohistory) : list (N * N) := c01_oracle_all cs ++ in_kinds [191] (sound_part cs (modelall_check_all cs)).
+Definition c02_all_check (cs : list ohistory) : list (N * N) := c02_oracle_all cs ++ in_kinds [291] (sound_part cs (modelall_check_all cs)).
 Definition c03_all_check (cs : list ohistory) : list (N * N) :=
-  c03_oracle_all cs ++ in_kinds [391; 392; 393; 394; 395; 396; 397; 398; 399] (modelall_check_all cs).
+  c03_oracle_all cs ++ in_kinds [391; 392; 393; 394; 395; 396; 397; 398; 399] (sound_part cs (modelall_check_all cs)).
